@@ -58,6 +58,7 @@ def fixtures(repo_dir):
 SDG = '<SDG GID="%s"><SD GID="v">%s</SD></SDG>'
 ARG = '<ARGUMENT-DATA-PROTOTYPE><SHORT-NAME>%s</SHORT-NAME><ADMIN-DATA><SDGS>%s</SDGS></ADMIN-DATA><DIRECTION>IN</DIRECTION></ARGUMENT-DATA-PROTOTYPE>'
 SORT_DOCS = [
+    doc('<SYSTEM><SHORT-NAME>S</SHORT-NAME><ADMIN-DATA><SDGS><SDG GID="T"><SD GID="v">2</SD><SD GID="v">1</SD></SDG><SDG GID="T"><SD GID="v">1</SD><SD GID="v">3</SD></SDG><SDG GID="T"><SD GID="w">0</SD><SD GID="v">9</SD><SD GID="a">5</SD></SDG></SDGS></ADMIN-DATA></SYSTEM>'),
     doc(''.join('<SYSTEM><SHORT-NAME>%s</SHORT-NAME></SYSTEM>' % n for n in ('a18446744073709551616', 'a10', 'a2', 'a18446744073709551615', 'a007', 'a7'))),
     doc(SYS % '' + '<SYSTEM><SHORT-NAME>Abc</SHORT-NAME></SYSTEM><SYSTEM><SHORT-NAME>Sys10</SHORT-NAME></SYSTEM><SYSTEM><SHORT-NAME>Sys2</SHORT-NAME></SYSTEM>'),
     doc('<CLIENT-SERVER-INTERFACE><SHORT-NAME>If</SHORT-NAME><OPERATIONS><CLIENT-SERVER-OPERATION><SHORT-NAME>Op</SHORT-NAME><ARGUMENTS>'
